@@ -150,7 +150,12 @@ def runRead (kv : KV) : String :=
       match vs.find? (fun (v : VarDesc) => v.loc == loc) with
       | some v => { shape := v.shape, get := fun idx => (ravel v.shape idx : Nat) }
       | none => { shape := [], get := fun _ => 0 }
-    let w := readFile b st { heap := [], log := [], handles := 0 } vs
+    -- optional: ext=<0/1 flags, one per distinct external file> grp=<0|1>
+    let exts : List Bool := match kv.get? "ext" with
+      | some e => if e == "-" then [] else e.toList.map (· == '1')
+      | none => []
+    let grp := kv.get? "grp" == some "1"
+    let w := readFilePlan b st { heap := [], log := [], handles := 0 } ⟨exts, grp, none⟩ vs
     let sts := (vs.zip w.heap).map (fun (p : VarDesc × AState Int) => s!"{p.1.loc.addr}:{showState (some p.2)}")
     s!"st={String.intercalate "," sts} log={showFetches w.log} h={w.handles}"
 
